@@ -108,11 +108,13 @@ Definition dispatch_core (E : env) (clk : clock) (id : N) (ps : option pstate) (
     | Panic s => Panic s
     | Ok r0 =>
       let s' := rpc_parse r0 data in
-      Ok ((if r_state s' =? R_END then CRpc s' true else CSilent), Some (PRpc s'))
+      if r_state s' =? R_END
+      then Ok ((if r_mtype s' =? 0 then CRpc s' true else CSilent), Some (PRpc (rpc_new R_FRAG)))
+      else Ok (CSilent, Some (PRpc s'))
     end
   else if id =? PROTO_RPC_UDP then
     let s' := rpc_parse (rpc_new R_XID) data in
-    Ok ((if r_state s' =? R_END then CRpc s' false else CSilent), ps)
+    Ok ((if (r_state s' =? R_END) && (r_mtype s' =? 0) then CRpc s' false else CSilent), ps)
   else if id =? PROTO_SMB1 then
     do r <- smb1_repl (e_smb_neg E) (e_smb_chal E) (clk_filetime clk) data; Ok (of_opt r, ps)
   else if id =? PROTO_SMB2 then
